@@ -118,24 +118,26 @@ def bool_table(F, body_value, variants, params):
     return out
 
 
-def _eval_bool(F, e, selfv, params):
-    e0 = e
+def _eval_bool(F, e, selfv, params, depth=0):
     while e.get("k") == "block" and not e.get("stmts") and "expr" in e:
         e = e["expr"]
+    e = strip(e) if e.get("k") in ("paren", "dropt", "use") else e
     k = e.get("k")
     if k == "lit" and "bool" in e:
         return e["bool"]
+    name = res_local(e)
+    if name is not None:
+        if name in params and isinstance(params[name], bool):
+            return params[name]
+        raise Inconclusive("table refers to local %r which is not a boolean parameter" % name)
     if k == "unary" and e["op"] == "Not":
-        return not _eval_bool(F, e["a"], selfv, params)
+        return not _eval_bool(F, e["a"], selfv, params, depth)
     if k == "if":
-        c = e["cond"]
-        name = res_local(c)
-        if name is None or name not in params:
-            raise Inconclusive("table condition is not a plain parameter")
-        br = e["then"] if params[name] else e.get("else")
+        c = _eval_bool(F, e["cond"], selfv, params, depth)
+        br = e["then"] if c else e.get("else")
         if br is None:
             raise Inconclusive("if without else in table")
-        return _eval_bool(F, br, selfv, params)
+        return _eval_bool(F, br, selfv, params, depth)
     if k == "match":
         if res_local(e["scrut"]) != "self":
             raise Inconclusive("table match scrutinee is not self")
@@ -144,12 +146,35 @@ def _eval_bool(F, e, selfv, params):
                 raise Inconclusive("guarded arm in table")
             for alt in pat_alts(arm["pat"]):
                 if alt[0] == "wild" or alt[0] == "bind" or (alt[0] == "variant" and ctor_matches(alt[1], selfv)):
-                    return _eval_bool(F, arm["body"], selfv, params)
+                    return _eval_bool(F, arm["body"], selfv, params, depth)
         raise Inconclusive("non-exhaustive table match")
     if k == "binary" and e["op"] in ("&&", "||"):
-        a = _eval_bool(F, e["a"], selfv, params)
-        b = _eval_bool(F, e["b"], selfv, params)
-        return (a and b) if e["op"] == "&&" else (a or b)
+        a = _eval_bool(F, e["a"], selfv, params, depth)
+        if e["op"] == "&&":
+            return a and _eval_bool(F, e["b"], selfv, params, depth)
+        return a or _eval_bool(F, e["b"], selfv, params, depth)
+    if k == "binary" and e["op"] in ("==", "!="):
+        try:
+            a = _eval_bool(F, e["a"], selfv, params, depth)
+            b = _eval_bool(F, e["b"], selfv, params, depth)
+            return (a == b) if e["op"] == "==" else (a != b)
+        except Inconclusive:
+            raise Inconclusive("unsupported comparison in table")
+    if k == "mcall" and res_local(e["recv"]) == "self" and e.get("def") and depth < 4:
+        # another predicate of the same enum, applied to the same value: evaluate its body
+        cands = [b for p2, b in F.bodies.items() if p2 == e["def"] and "hir" in b]
+        if len(cands) == 1:
+            b = cands[0]
+            pn = []
+            for p2 in b["hir"]["params"]:
+                for alt in pat_alts(p2):
+                    if alt[0] == "bind":
+                        pn.append(alt[1])
+            pn = [n for n in pn if n != "self"]
+            if len(pn) == len(e["args"]):
+                env = {n: _eval_bool(F, a, selfv, params, depth) for n, a in zip(pn, e["args"])}
+                return _eval_bool(F, b["hir"]["value"], selfv, env, depth + 1)
+        raise Inconclusive("table calls %s which cannot be evaluated" % e.get("def"))
     raise Inconclusive("unsupported table expression kind %r" % k)
 
 
